@@ -318,6 +318,7 @@ func (sc *serverConn) readLoop() (err error) {
 	var expectContinuation uint32
 
 	for err == nil {
+		verifTick(verifTickReadLoop)
 		// The limit on what we accept is the one we advertised, not the one
 		// the client did (which is zero, no limit at all, until its first
 		// SETTINGS frame arrives).
@@ -444,6 +445,7 @@ func (sc *serverConn) readLoop() (err error) {
 func (sc *serverConn) forward(fr *FrameHeader) bool {
 	select {
 	case sc.reader <- fr:
+		verifTick(verifTickForwarded)
 		return true
 	case <-sc.handlerStop:
 		ReleaseFrameHeader(fr)
@@ -595,6 +597,8 @@ func (sc *serverConn) handleStreams() {
 loop:
 	for {
 		releaseHandled()
+		verifTick(verifTickStreamLoop)
+		verifGauge(len(strms), openStreams, len(closedRing))
 
 		select {
 		case <-sc.closer:
@@ -1433,6 +1437,7 @@ func (sc *serverConn) dispatchHandler(strm *Stream) {
 
 			select {
 			case sc.handlerDone <- strm:
+				verifTick(verifTickHandlerDone)
 			case <-sc.handlerStop:
 			}
 		}()
@@ -1657,6 +1662,7 @@ func (sc *serverConn) sendPingAndSchedule() {
 func (sc *serverConn) write(fr *FrameHeader) {
 	select {
 	case sc.writer <- fr:
+		verifTick(verifTickQueued)
 	case <-sc.writeStop:
 		ReleaseFrameHeader(fr)
 	case <-sc.writeDone:
@@ -1677,6 +1683,7 @@ func (sc *serverConn) writeLoop() {
 		}
 
 		ReleaseFrameHeader(fr)
+		verifTick(verifTickWritten)
 
 		if err != nil {
 			sc.logger.Printf("ERROR: writeLoop: %s\n", err)
